@@ -6,6 +6,7 @@
   `refRun` is the memo-free reference loop. `holds c st r` is the condition evaluated from scratch.
 -/
 import GruleModel.Proofs.Side
+import GruleModel.Proofs.SideInstance
 namespace Grule.C01
 open Grule
 
@@ -33,7 +34,21 @@ theorem C01_fire_sound_memo_free {c : Cfg} (hm : c.memo = false) (rc : RunCfg) (
   rw [htr]
   exact refRun_exec rc c inst st
 
+/-- **The side conditions are satisfiable with the working memory on** (`Proofs/SideInstance`): the knowledge base
+    `rule R { when X > 1 then X = 0; }` with its real index meets `Side`, `FrameHyp` included — from every coherent
+    state, whatever the facts and the remembered values, assigning `X` leaves the memo coherent. So the theorems above
+    are not vacuous for memoising configurations: for this knowledge base, every store, `MaxCycle`, order and
+    cancellation point, the memoising run fires exactly what the reference run fires. -/
+theorem C01_side_satisfiable (hfl : FloatPF) (rc : RunCfg) (st : Store) (memoE memoA : Memo) :
+    Side SideInstance.c0 SideInstance.entries0 ∧
+    execList (execute rc SideInstance.c0 { entries := SideInstance.entries0, wm := SideInstance.wm0, memoE := memoE, memoA := memoA } st).trace
+      = firedNames (refRun rc SideInstance.c0 { entries := SideInstance.entries0, wm := SideInstance.wm0, memoE := memoE, memoA := memoA } st).fired :=
+  ⟨SideInstance.side0 hfl,
+   (C01_fire_sound rc { entries := SideInstance.entries0, wm := SideInstance.wm0, memoE := memoE, memoA := memoA } st (SideInstance.side0 hfl)).1⟩
+
 end Grule.C01
+
+#print axioms Grule.C01.C01_side_satisfiable
 
 #print axioms Grule.C01.C01_fire_sound
 #print axioms Grule.C01.C01_fire_sound_memo_free
